@@ -113,6 +113,18 @@ def gen_sequence(g, length):
             kind = "insert" if r.random() < 0.6 else "delete"
             t = r.sample(NAMES + ([UNKNOWN] if r.random() < 0.1 else []), r.choice([1, 1, 2, 3]))
             ids = [r.randint(1, len(bqlu.TRIPLES)) for _i in range(r.choice([1, 2, 3, 4]))]
+            if r.random() < 0.3:
+                # long lists that name some triples several times (a batch is a list, not a set), mostly into several graphs
+                ids = [r.randint(1, len(bqlu.TRIPLES)) for _i in range(r.choice([12, 60, 400]))]
+                ids = ids + r.sample(ids, len(ids) // 2) + ids[:3]
+                r.shuffle(ids)
+                if r.random() < 0.6:
+                    # every triple of the universe, each two or three times in a row (removing the repeats moves almost
+                    # every element of the list)
+                    perm = r.sample(range(1, len(bqlu.TRIPLES) + 1), len(bqlu.TRIPLES))
+                    ids = [x for tt in perm for x in [tt] * r.choice([2, 2, 3])]
+                if len(t) < 2:
+                    t = r.sample(NAMES, r.choice([2, 3]))
             data = [trec(i) for i in ids]
             body = " . ".join(triple_text(d) for d in data)
             text = ("INSERT DATA INTO %s { %s };" if kind == "insert" else "DELETE DATA FROM %s { %s };") % (", ".join(t), body)
